@@ -117,6 +117,39 @@ fn attr_paths(acc: &mut Acc, case: &Case, w: &dyn AttributeWrite, want: &[u8], l
     if w.padded_len() != needed {
         viol!(acc, P, &format!("padded_len/{label}"), case, "padded_len() is not the length of the encoding", format!("{needed}"), format!("{}", w.padded_len()));
     }
+    // destinations of 64 KiB and more (a datagram-sized scratch buffer): 65535, 65536, 65536 + needed - 1,
+    // 131072 and 1 MiB, for every 32nd case (the size check must not be done in 16 bits)
+    if (needed + want.iter().map(|b| *b as usize).sum::<usize>()) % 32 == 0 {
+        for size in [65_535usize, 65_536, 65_536 + needed.saturating_sub(1), 131_072, 1 << 20] {
+            let mut dest = vec![0xAAu8; size];
+            match w.write_into(&mut dest) {
+                Ok(n) if n == needed && dest[..needed] == want[..] && dest[needed..].iter().all(|b| *b == 0xAA) => {}
+                other => {
+                    viol!(acc, P, &format!("write-into-large-destination/{label}"), case, format!("write_into a destination of {size} bytes does not give the reference encoding"), fmt_bytes(want), format!("{other:?}"));
+                    break;
+                }
+            }
+        }
+    }
+    // the destination at the other residues of its address modulo 4 (a transmit buffer behind a
+    // 2-byte length prefix): the same bytes
+    {
+        let mut buf = vec![0xAAu8; needed + 8];
+        let a0 = buf.as_ptr() as usize;
+        for r in 1..4usize {
+            let s0 = (0..8usize).find(|s| (a0 + s) % 4 == r).unwrap();
+            for b in buf.iter_mut() {
+                *b = 0xAA;
+            }
+            match w.write_into(&mut buf[s0..s0 + needed]) {
+                Ok(n) if n == needed && buf[s0..s0 + needed] == want[..] && buf[..s0].iter().all(|b| *b == 0xAA) && buf[s0 + needed..].iter().all(|b| *b == 0xAA) => {}
+                other => {
+                    viol!(acc, P, &format!("write-depends-on-alignment/{label}"), case, format!("write_into a destination whose address is {r} modulo 4 does not give the reference encoding (or touches bytes outside the destination)"), fmt_bytes(want), format!("{other:?} {}", fmt_bytes(&buf[s0..s0 + needed])));
+                    break;
+                }
+            }
+        }
+    }
     // every destination size for encodings up to 96 bytes; above that every size in 0..=40 and within
     // 40 bytes of the needed size, and every 61st in between (what matters is on which side of the
     // needed size, of the header and of the padding a destination falls)
@@ -206,6 +239,19 @@ pub fn judge(case: &Case, acc: &mut Acc) {
                 let mut writes = Vec::new();
                 // programs that look at the builder in mid-construction (Measure) repeat a program that
                 // is also run plain with every size: for them the sizes around the header and the end
+                // destinations of 64 KiB and more for every 16th builder
+                if (len + n) % 16 == 0 {
+                    for size in [65_535usize, 65_536, 65_536 + len - 1, 131_072, 1 << 20] {
+                        let mut dest = vec![0xAAu8; size];
+                        let r = b.write_into(&mut dest).map_err(|e| match too_small(&e) {
+                            Some((e1, a1)) => format!("TooSmall({e1},{a1}) for a destination of {size} bytes"),
+                            None => format!("{e:?}"),
+                        });
+                        // judged below like a destination of len + 16 bytes (its first len + 16 bytes)
+                        dest.truncate(len + 16);
+                        writes.push((len + 16, r, dest));
+                    }
+                }
                 let measured = p.ops.iter().any(|o| matches!(o, Op::Measure));
                 let sizes: Vec<usize> = if measured { (0..=len + 16).filter(|s| *s <= 1 || (19..=21).contains(s) || *s + 5 >= len).collect() } else { (0..=len + 16).collect() };
                 for size in sizes {
